@@ -54,7 +54,7 @@ pub fn scopes(rep: &Report, checks: Checks) {
     let lz = |_: usize| vec![Cfg { fmt: crate::codec::Fmt::Compact, alg: crate::keys::Alg::HS256, decoys: false, hk: crate::keys::Hk::EsLz }, Cfg { fmt: crate::codec::Fmt::Json, alg: crate::keys::Alg::ES256, decoys: true, hk: crate::keys::Hk::EsLz }];
     run_structures(rep, "holder key with a leading zero octet in a coordinate: S(2,2) x all strategies x all selections x 2 cfgs, key binding on", &trees(2, 2), &all_strats, &lz, checks, true);
     run_structures(rep, "issuer identifiers of 16 shapes x 2 trees x {NoSD, Top, All} x all selections, decoys off and on, compact / JSON with key binding", &iss_variant_trees(), &fixed_strategies, &vw_cfgs_early, checks, true);
-    run_structures(rep, "the holder's own public key as a user claim named sub_jwk / jwk / holder_key / cnf2 / confirmation x 8 strategies x all selections, key binding on and off", &confirmation_like_trees(), &few_strategies, &vw_cfgs_early, checks, true);
+    run_structures(rep, "the holder's own public key as a user claim named sub_jwk / jwk / holder_key / cnf2 / confirmation x 8 strategies x select all / nothing, key binding on and off", &confirmation_like_trees(), &few_strategies, &vw_cfgs_early, checks, false);
     // D3: pairs of special strings in one container
     let pairs = pair_alphabet_trees();
     run_structures(rep, "string-pair pass: every ordered pair of the string alphabet side by side in 5 container shapes x {Top, All, 2 Custom}", &pairs, &pair_strategies, &cheap, checks, false);
